@@ -18,6 +18,9 @@ Definition resolve (f : list Z -> Z) (n : nat) : list Z :=
 Definition resolve_unrepaired (f : list Z -> Z) (n : nat) : list Z :=
   map (fun i => f (unit_vec n i)) (seq 0 n).
 
+(* the constant term goes to the base pointer: `arith.addi (extract_aligned_pointer m) (f 0)` (repaired F5b) *)
+Definition resolve_base (f : list Z -> Z) (n : nat) : Z := f (zero_vec n).
+
 Definition dot (a b : list Z) : Z := zsum (map (fun p => fst p * snd p) (combine a b)).
 
 (* the composed access->memory map for the layouts the compiler produces *)
